@@ -82,8 +82,8 @@ def _design(ck, quick, wd):
         tree = [(3, 2, [1], True), (3, 3, [], False)]
         dag = [(3, 2, [1], True), (3, 3, [1], False)]
     else:
-        tree = [(3, 2, [1], True), (3, 3, [1, 2], False), (4, 4, [], False)]
-        dag = [(3, 2, [1], True), (3, 4, [1], False), (4, 4, [], False)]
+        tree = [(3, 2, [1], True), (3, 3, [1, 2], False), (4, 3, [], False), (3, 4, [], False)]
+        dag = [(3, 2, [1], True), (3, 4, [1], False), (4, 3, [], False)]
     for mod, cfgs, inv, prop in (("Tree", tree, TREE_INV, TREE_PROP), ("Dag", dag, DAG_INV, DAG_PROP)):
         for n, e, objs, cov in cfgs:
             cfg = os.path.join(wd, "%s_design_%d_%d_%d.cfg" % (mod, n, e, len(objs)))
@@ -185,9 +185,14 @@ def run(tier, seed):
         ("tree", "shapes", ["--mode", "shapes", "--maxn", 7]),
         ("tree", "rtrees", ["--mode", "rtrees", "--n", 40 if quick else 600, "--lo", 8, "--hi", 12]),
         ("tree", "hist", ["--mode", "hist", "--n", 300 if quick else 6000, "--len", 40, "--maxn", 6]),
-        ("dag", "digraphs", ["--mode", "digraphs", "--maxn", 4, "--loops", 3 if quick else 4]),
+        ("tree", "hist3", ["--mode", "hist", "--n", 200 if quick else 4000, "--len", 30, "--maxn", 3, "--salt", 7]),   # dense interleavings on <= 3 nodes
+        ("tree", "cachewalk", ["--mode", "cachewalk", "--n", 20 if quick else 300]),   # query / one edit of every kind / query
+        ("dag", "digraphs", ["--mode", "digraphs", "--maxn", 4, "--loops", 3]),
         ("dag", "dhist", ["--mode", "dhist", "--n", 200 if quick else 4000, "--len", 40, "--maxn", 6]),
     ]
+    if not quick:   # the same enumerations once more with other labellings / edit orders / operation mixes
+        runs += [("tree", "shapes2", ["--mode", "shapes", "--maxn", 7, "--salt", 11]),
+                 ("dag", "digraphs2", ["--mode", "digraphs", "--maxn", 4, "--loops", 3, "--salt", 11])]
     jobs = []
     for kind, name, args in runs:
         tr = os.path.join(wd, "trace-%s.ndjson" % name)
@@ -200,14 +205,14 @@ def run(tier, seed):
     def one(job):
         kind, name, tr, s = job
         mod, cfg = _module(kind)
-        big = os.path.getsize(tr) > 8000000
+        big = os.path.getsize(tr) > 6000000
         return job, vc.validate_trace(SPEC, mod, cfg, tr, parallel=(8 if big else 3), timeout=6000)
 
     with ThreadPoolExecutor(max_workers=2 if quick else 3) as ex:
         results = list(ex.map(one, jobs))
     for (kind, name, tr, s), (n_ev, rej, st) in results:
-        _account(ck, kind, tr, s, name[:2], n_ev, rej)
-        if name in ("hist", "dhist"):
+        _account(ck, kind, tr, s, name[:2] + name[-1:], n_ev, rej)
+        if name in ("hist", "dhist"):   # samples for the evidence
             ck.samples += vc.sample_scenarios(tr, 2, maxlines=10)
         os.remove(tr)
     # one probe scenario per known finding: does it still reproduce?
@@ -225,8 +230,9 @@ def run(tier, seed):
     ck.rule = ("trees: every rooted shape with 1..7 nodes (random labelling, random mix of addSon/setFather/link with and "
                "without edge objects) x every new root x all ordered node pairs (paths) x all non-empty node subsets (MRCA); "
                "random trees with 8..12 nodes (sampled pairs / subsets incl. ancestor arguments); random histories of 40 calls "
-               "over <= 6 nodes mixing all edits (valid or not) and queries; DAGs: every digraph on <= 4 labelled nodes "
-               "(self-loops up to 3 nodes quick / 4 thorough), random digraphs and histories on <= 6 nodes; "
+               "over <= 6 nodes and of 30 calls over <= 3 nodes mixing all edits (valid or not, rooted or un-rooted) and queries; from random valid trees: cache filled by isValid / getSubtreeNodes / "
+               "left empty, then one edit of each of 22 kinds (incl. every refusal), then query; DAGs: every digraph on <= 4 labelled nodes "
+               "(with self-loops up to 3 nodes, loop-free on 4), random digraphs and histories on <= 6 nodes; "
                "non-trivial = scenario with at least one edit followed by a query")
     ck.distinct = ck.traces
     ck.assumptions = ["TLC 1.8.0; CommunityModules Json", "harness/drv_tree.cpp reads the state back through public const queries only",
